@@ -476,6 +476,201 @@ func runC02(c *Ctx) {
 		}
 	}
 
+	// ------------------------------------------------------------ S6
+	c.Rule("C02.S6", "EXHAUSTIVE", "alreadyVoted caps every vote kind that can be cast: for each kind K handed to vote, every way alreadyVoted can answer false for a record of the stored round and round index has established that mark[K] is below the cap (1; 2 for NextIndex) — a kind without a bound is signed again after a restart although its record was replayed")
+	c.Min(4)
+	{
+		av := w.Fn(uconPkg, "VoteDB", "alreadyVoted")
+		c.sawFunc(fname(av))
+		var vtParam *ssa.Parameter
+		for _, prm := range av.Params {
+			if ownerName(prm.Type()) == "VoteType" {
+				vtParam = prm
+			}
+		}
+		nextIdx, _ := constant.Int64Val(constant.ToInt(constOf(w, uconPkg, "NextIndex")))
+		isMark := func(v ssa.Value) bool {
+			v = stripConv(v)
+			if ex, ok := v.(*ssa.Extract); ok {
+				v = ex.Tuple
+			}
+			lk, ok := v.(*ssa.Lookup)
+			if !ok {
+				return false
+			}
+			mt, ok := lk.X.Type().Underlying().(*types.Map)
+			return ok && ownerName(mt.Key()) == "VoteType" && stripConv(lk.Index) == ssa.Value(vtParam)
+		}
+		isParamOf := func(v ssa.Value) bool {
+			p, ok := stripConv(v).(*ssa.Parameter)
+			return ok && p.Parent() == av
+		}
+		isRecvField := func(v ssa.Value) bool {
+			f, base := loadedField(stripConv(v))
+			return f != nil && base != nil && len(av.Params) > 0 && stripConv(base) == ssa.Value(av.Params[0])
+		}
+		isCmpCall := func(v ssa.Value) bool {
+			call, ok := stripConv(v).(*ssa.Call)
+			if !ok {
+				return false
+			}
+			o := calleeObj(call)
+			return o != nil && o.Name() == "Cmp" && o.Pkg() != nil && o.Pkg().Path() == "math/big"
+		}
+		type pathInfo struct {
+			atoms []Atom
+			pos   token.Pos
+		}
+		var falsePaths []pathInfo
+		okEnum := vtParam != nil && enumPaths(av, 4096, func(pr PathResult) {
+			rv := pr.Resolve(pr.Ret.Results[0])
+			facts := pr.Facts
+			if cv, isC := rv.(*ssa.Const); isC && cv.Value != nil && cv.Value.Kind() == constant.Bool {
+				if constant.BoolVal(cv.Value) {
+					return
+				}
+			} else {
+				facts = append(append([]Fact(nil), facts...), Fact{Cond: rv, Truth: false})
+			}
+			falsePaths = append(falsePaths, pathInfo{atomsOf(facts), pr.Ret.Pos()})
+		})
+		if !okEnum {
+			c.Undecided(fname(av)+"#caps-every-kind", av.Pos(), "the paths of alreadyVoted could not be enumerated")
+		}
+		var ks []int64
+		for k := range kinds {
+			ks = append(ks, k)
+		}
+		sort.Slice(ks, func(i, j int) bool { return ks[i] < ks[j] })
+		for _, k := range ks {
+			if !okEnum {
+				break
+			}
+			c.sites++
+			capK := int64(1)
+			if k == nextIdx {
+				capK = 2
+			}
+			bad := ""
+			considered := 0
+			for _, pi := range falsePaths {
+				feasible, sameCtx := true, true
+				riEq, riNe := false, false
+				bounded := false
+				for _, a := range pi.atoms {
+					x, y := a.X, a.Y
+					switch a.Kind {
+					case "isnil":
+						if isRecvField(x) && a.Truth {
+							sameCtx = false
+						}
+					case "eq", "cmp":
+						if y == nil {
+							continue
+						}
+						// kind tests
+						if cx, isK := constInt(y); isK && stripConv(x) == ssa.Value(vtParam) && a.Kind == "eq" {
+							if (cx == k) != a.Truth {
+								feasible = false
+							}
+							continue
+						}
+						if cx, isK := constInt(x); isK && stripConv(y) == ssa.Value(vtParam) && a.Kind == "eq" {
+							if (cx == k) != a.Truth {
+								feasible = false
+							}
+							continue
+						}
+						// round comparison
+						if isCmpCall(x) || isCmpCall(y) {
+							zero := false
+							if cv, isK := constInt(y); isK && cv == 0 {
+								zero = true
+							}
+							if cv, isK := constInt(x); isK && cv == 0 {
+								zero = true
+							}
+							if !(a.Kind == "eq" && zero && a.Truth) {
+								sameCtx = false
+							}
+							continue
+						}
+						// round index comparison: receiver field against parameter
+						if (isRecvField(x) && isParamOf(y)) || (isRecvField(y) && isParamOf(x)) {
+							if a.Kind == "eq" {
+								if a.Truth {
+									riEq = true
+								} else {
+									riNe = true
+								}
+							} else if a.Truth && (a.Op == token.LSS || a.Op == token.GTR) {
+								riNe = true
+							} else if !a.Truth && (a.Op == token.LEQ || a.Op == token.GEQ) {
+								riNe = true
+							}
+							continue
+						}
+						// the mark bound
+						mk, cst, swapped := x, y, false
+						if isMark(y) {
+							mk, cst, swapped = y, x, true
+						}
+						if !isMark(mk) {
+							continue
+						}
+						cv, isK := constInt(cst)
+						if !isK {
+							continue
+						}
+						if a.Kind == "eq" {
+							if (!a.Truth && cv == capK) || (a.Truth && cv < capK) {
+								bounded = true
+							}
+							continue
+						}
+						op := a.Op
+						if swapped {
+							op = map[token.Token]token.Token{token.LSS: token.GTR, token.GTR: token.LSS, token.LEQ: token.GEQ, token.GEQ: token.LEQ}[op]
+						}
+						ub := int64(1 << 30)
+						switch {
+						case op == token.LSS && a.Truth:
+							ub = cv - 1
+						case op == token.LEQ && a.Truth:
+							ub = cv
+						case op == token.GEQ && !a.Truth:
+							ub = cv - 1
+						case op == token.GTR && !a.Truth:
+							ub = cv
+						}
+						if ub < capK {
+							bounded = true
+						}
+					}
+				}
+				if !feasible || (riEq && riNe) {
+					continue
+				}
+				if riNe {
+					sameCtx = false
+				}
+				if !sameCtx {
+					continue
+				}
+				considered++
+				if !bounded && bad == "" {
+					bad = w.Pos(pi.pos)
+				}
+			}
+			nm := vtNames[k]
+			if nm == "" {
+				nm = fmt.Sprint(k)
+			}
+			okK := bad == "" && considered > 0
+			c.Check(fmt.Sprintf("%s#caps-%s", fname(av), nm), av.Pos(), okK, ifelse(okK, fmt.Sprintf("every not-yet-voted answer in the stored round/index has mark < %d (%d way(s))", capK, considered), ifelse(considered == 0, "no way of answering false for the stored round and index was found", fmt.Sprintf("alreadyVoted can answer false for a %s vote of the stored round and index without a bound on its mark (return at %s): after a restart the replayed record does not stop a second, conflicting %s vote", nm, bad, nm))))
+		}
+	}
+
 	// ------------------------------------------------------------ S5
 	c.Rule("C02.S5", "GATE", "the once-only latches precommitted / certificated are set to true only on the nil edge of the corresponding vote call")
 	c.Min(2)
